@@ -101,7 +101,7 @@ def capture(build):
         call = build(s)
         base = len(s.variables)
         cbase = len(s.constraints)
-        res = call()
+        res = core.with_timeout(30, call)      # posting constraints on a small graph takes milliseconds
         return ("ok", exprio.pprog(s, base, cbase), res, s)
     except Exception as e:
         return ("err", core.err_name(e), None, s)
@@ -193,6 +193,6 @@ def real_program(call_builder):
     call = call_builder(s)
     base = len(s.variables)
     cbase = len(s.constraints)
-    res = call()
+    res = core.with_timeout(30, call)
     decls, cs = exprio.parse_prog(exprio.pprog(s, base, cbase))
     return decls, cs, base, res
